@@ -718,6 +718,12 @@ func (g *dtGen) wrapperOf(key string) string {
 	return "WUnknownWrapper " + dtStr(s)
 }
 
+var primitiveBodies = map[string]string{
+	"ReadInt64":  "c := dec.NextByte(); if c == '-' { return -int64(dec.readUint64(dec.NextByte())) }; return int64(dec.readUint64(c))",
+	"ReadUint64": "c := dec.NextByte(); if c == '-' { return uint64(-int64(dec.readUint64(dec.NextByte()))) }; return dec.readUint64(c)",
+	"readUint64": "i := intDigits[c]; if i == invalidDigit { return }; value = i; for { for p := dec.head; p < dec.tail; p++ { i = intDigits[dec.buf[p]] if i == invalidDigit { dec.head = p + 1 return } value = value*10 + i } if !dec.loadMore() { return } }",
+}
+
 func (g *dtGen) readerOf(name string) string {
 	fd := g.p.funcs["Decoder."+name]
 	if fd == nil || fd.Body == nil {
@@ -728,11 +734,51 @@ func (g *dtGen) readerOf(name string) string {
 	if m := re.FindStringSubmatch(s); m != nil {
 		return "RdConv " + kindOfGo[m[1]] + " " + dtStr(m[2])
 	}
-	if name == "ReadInt64" || name == "ReadUint64" {
+	if want, ok := primitiveBodies[name]; ok && s == want {
 		return "RdPrimitive"
+	}
+	reF := regexp.MustCompile(`^f, err := strconv\.ParseFloat\(convert\.ToUnsafeString\(dec\.UnsafeUntil\(TagSemicolon\)\), (32|64)\); if dec\.Error == nil && err != nil \{ dec\.Error = err \}; return (float32\(f\)|f)$`)
+	if m := reF.FindStringSubmatch(s); m != nil {
+		if (m[1] == "32" && m[2] == "float32(f)" && name == "ReadFloat32") || (m[1] == "64" && m[2] == "f" && name == "ReadFloat64") {
+			return "RdParseFloat " + m[1]
+		}
 	}
 	g.unk++
 	return "RdUnknown " + dtStr(s)
+}
+
+// the stringToX helpers
+func (g *dtGen) parserOf(name string) string {
+	fd := g.p.funcs["Decoder."+name]
+	if fd == nil || fd.Body == nil {
+		return "PsUnknown " + dtStr("missing "+name)
+	}
+	s := g.normStmts(fd.Body.List)
+	if m := regexp.MustCompile(`^(\w), err := strconv\.(ParseInt|ParseUint)\(s, (\d+), bitSize\); if err != nil \{ dec\.Error = err \}; return (\w)$`).FindStringSubmatch(s); m != nil && m[1] == m[4] {
+		return "PsStrconv " + dtStr(m[2]) + " " + m[3] + " true"
+	}
+	if m := regexp.MustCompile(`^(\w), err := strconv\.ParseBool\(s\); if err != nil \{ dec\.Error = err \}; return (\w)$`).FindStringSubmatch(s); m != nil && m[1] == m[2] {
+		return "PsStrconv " + dtStr("ParseBool") + " 0 false"
+	}
+	if m := regexp.MustCompile(`^f, err := strconv\.ParseFloat\(s, (32|64)\); if err != nil \{ dec\.Error = err \}; return (float32\(f\)|f)$`).FindStringSubmatch(s); m != nil {
+		if (m[1] == "32" && m[2] == "float32(f)") || (m[1] == "64" && m[2] == "f") {
+			return "PsFloat " + m[1]
+		}
+	}
+	if m := regexp.MustCompile(`^c, err := complexconv\.ParseComplex\(s, (64|128)\); if err != nil \{ dec\.Error = err \}; return (complex64\(c\)|c)$`).FindStringSubmatch(s); m != nil {
+		if (m[1] == "64" && m[2] == "complex64(c)") || (m[1] == "128" && m[2] == "c") {
+			return "PsComplex " + m[1]
+		}
+	}
+	if m := regexp.MustCompile(`^if (\w+), ok := new\(big\.(Int|Float|Rat)\)\.SetString\(s(, 10)?\); ok \{ return (\w+) \}; (?:typeName := "\*big\.\w+"; if t != nil \{ typeName = t\.String\(\) \}; dec\.decodeStringError\(s, typeName\)|dec\.decodeStringError\(s, t\.String\(\)\)); return nil$`).FindStringSubmatch(s); m != nil && m[1] == m[4] {
+		b10 := "false"
+		if m[3] != "" {
+			b10 = "true"
+		}
+		return "PsBig " + dtStr(m[2]) + " " + b10
+	}
+	g.unk++
+	return "PsUnknown " + dtStr(s)
 }
 
 // number of reference-list append sites in a function body
@@ -927,11 +973,19 @@ func genDecTables(repo string) (string, map[string]interface{}, error) {
 	}
 	b.WriteString("].\n\n")
 	b.WriteString("Definition gen_dec_readers : list (bstr * reader) :=\n  [")
-	for i, n := range []string{"ReadInt", "ReadInt8", "ReadInt16", "ReadInt32", "ReadInt64", "ReadUint", "ReadUint8", "ReadUint16", "ReadUint32", "ReadUint64"} {
+	for i, n := range []string{"ReadInt", "ReadInt8", "ReadInt16", "ReadInt32", "ReadInt64", "ReadUint", "ReadUint8", "ReadUint16", "ReadUint32", "ReadUint64", "readUint64", "ReadFloat32", "ReadFloat64"} {
 		if i > 0 {
 			b.WriteString(";\n   ")
 		}
 		b.WriteString("(" + dtStr(n) + ", " + g.readerOf(n) + ")")
+	}
+	b.WriteString("].\n\n")
+	b.WriteString("Definition gen_dec_parsers : list (bstr * parser) :=\n  [")
+	for i, n := range []string{"stringToBool", "stringToInt64", "stringToUint64", "stringToFloat32", "stringToFloat64", "stringToComplex64", "stringToComplex128", "stringToBigInt", "stringToBigFloat", "stringToBigRat"} {
+		if i > 0 {
+			b.WriteString(";\n   ")
+		}
+		b.WriteString("(" + dtStr(n) + ", " + g.parserOf(n) + ")")
 	}
 	b.WriteString("].\n\n")
 	b.WriteString("(* number of dec.AddReference / dec.refer.Add call sites per routine; 999 = routine not found *)\nDefinition gen_ref_effects : list (bstr * N) :=\n  [")
